@@ -23,6 +23,7 @@ def run(ctx):
     e_live_heads_per_group(ctx)
     d_priority_zero(ctx)
     c_identity_by_instance(ctx)
+    c_instance_registered(ctx)
     c_abort_spares_winner(ctx)
     d_score_chain(ctx)
     t = ctx.tree.ast(SM)
@@ -91,6 +92,26 @@ def run(ctx):
     gl = group_loops[0]
     gnode = cfg.node_of(gl.iter)
 
+    def region(stmts):
+        """the statements of one group iteration read as a sequence, including those of a retry loop (`while`: pick, try, pick again) but not of loops over the other heads"""
+        out = []
+        for s_ in linear(stmts):
+            out.append(s_)
+            if isinstance(s_, ast.While):
+                out += inside(s_.body)
+        return out
+
+    def inside(stmts):
+        out = []
+        for s_ in stmts:
+            out.append(s_)
+            if isinstance(s_, (ast.If, ast.While)):
+                out += inside(s_.body) + inside(s_.orelse)
+            elif isinstance(s_, ast.Try):
+                out += inside(s_.body) + inside(s_.orelse) + inside(s_.finalbody)
+        return out
+    gbody = region(gl.body)
+
     # ---- b: exactly one emission per group -------------------------------------------
     first = [m for m, lab in gnode.succ if lab is True]
     paths = []
@@ -98,7 +119,7 @@ def run(ctx):
     # a separate obligation below), so paths skip its iterations
     inner_first = set()
     for f in ast.walk(gl):
-        if isinstance(f, ast.For) and f is not gl and any(f is s for s in linear(gl.body)):
+        if isinstance(f, ast.For) and f is not gl and any(f is s for s in gbody):
             inode0 = cfg.node_of(f.iter)
             inner_first |= {m for m, lab in inode0.succ if lab is True}
     for f0 in first:
@@ -148,23 +169,41 @@ def run(ctx):
                 if any(isinstance(c, ast.Call) and isinstance(c.func, ast.Name) and c.func.id in EMITS for c in ast.walk(v)):
                     return True
         return False
+    from ..pycfg import feasible
+    # a wrapper that REPORTS success (its call is the test of an `if`): the event exists only on the true edge; on the false edge the head's flow has failed alone
+    inner_heads = [cfg.node_of(f.iter) for f in ast.walk(gl) if isinstance(f, ast.For) and f is not gl and any(f is s_ for s_ in gbody)]
     counts = set()
+    nfeasible = 0
     for p in paths:
-        if _empty_group_exit(p):
+        if _empty_group_exit(p) or not feasible(p, fn):
             continue
-        k = sum(1 for n in p if is_emit(n))
+        nfeasible += 1
+        k = failed = 0
+        for i_, n in enumerate(p):
+            if not is_emit(n):
+                continue
+            if n.kind == "test" and i_ + 1 < len(p) and not isinstance(n.stmt, (ast.For, ast.While)) or (n.kind == "test" and isinstance(n.stmt, ast.While)):
+                labs = [lab for m, lab in n.succ if m is p[i_ + 1]] if i_ + 1 < len(p) else []
+                if labs == [False] and isinstance(n.ast, ast.Call):
+                    failed += 1
+                    continue
+            k += 1
+        if k == 0 and failed and not any(n in inner_heads for n in p):
+            # every candidate failed to create its event (each failed alone) and the iteration ends without touching another head: nothing to proceed
+            continue
         counts.add(k)
         if any(_conditional_emit(n) for n in p):
             counts.add(k - 1)
     counts = sorted(counts)
+    ctx.stat("group_iteration_paths_feasible", nfeasible)
     ctx.check("C05.b.one-emission", SM, unit, "emissions per group iteration", counts == [1],
               "on every path through one group iteration exactly one action event is generated (counts over %d paths: %s)" % (len(paths), counts), line=gl.lineno)
-    inner = [f for f in ast.walk(gl) if isinstance(f, ast.For) and f is not gl and any(f is s for s in linear(gl.body))]
+    inner = [f for f in ast.walk(gl) if isinstance(f, ast.For) and f is not gl and any(f is s for s in gbody)]
     inner_emit = [c for f in inner for c in ast.walk(f) if isinstance(c, ast.Call) and isinstance(c.func, ast.Name) and c.func.id in EMITS]
     ctx.check("C05.b.one-emission", SM, unit, "no emission for co-winners", not inner_emit,
               "no action event is generated inside the loop over the other heads (co-winners share the winner's action)", line=gl.lineno)
     # emission argument is the picked head
-    sorted_vars = [s.targets[0].id for s in linear(gl.body) if isinstance(s, ast.Assign) and isinstance(s.value, ast.Call)
+    sorted_vars = [s.targets[0].id for s in gbody if isinstance(s, ast.Assign) and isinstance(s.value, ast.Call)
                    and isinstance(s.value.func, ast.Name) and s.value.func.id == "sorted" and isinstance(s.targets[0], ast.Name)]
 
     def _is_pick(v):
@@ -174,11 +213,24 @@ def run(ctx):
             return any(isinstance(n, ast.Name) and n.id in sorted_vars for n in ast.walk(v.value)) and not isinstance(v.slice, ast.Slice)
         return False
 
-    pick = [s for s in linear(gl.body) if isinstance(s, ast.Assign) and isinstance(s.targets[0], ast.Name) and _is_pick(s.value)]
-    pv = pick[0].targets[0].id if pick else None
-    emits = [c for s in linear(gl.body) for c in ast.walk(s) if isinstance(c, ast.Call) and isinstance(c.func, ast.Name) and c.func.id in EMITS]
-    ctx.check("C05.b.one-emission", SM, unit, "emission for the picked head", bool(emits) and pv is not None and all(src(c.args[-1]) == pv for c in emits),
-              "the generated action event is the picked head's (`%s`)" % pv, line=gl.lineno)
+    pick = [s for s in gbody if isinstance(s, ast.Assign) and isinstance(s.targets[0], ast.Name) and _is_pick(s.value)]
+    pv0 = pick[0].targets[0].id if pick else None
+    emits = [c for s in gbody if not isinstance(s, (ast.While, ast.For)) for c in walk_no_nested(s) if isinstance(c, ast.Call) and isinstance(c.func, ast.Name) and c.func.id in EMITS]
+    emits += [c for s in gbody if isinstance(s, ast.While) for c in ast.walk(s.test) if isinstance(c, ast.Call) and isinstance(c.func, ast.Name) and c.func.id in EMITS]
+    ctx.check("C05.b.one-emission", SM, unit, "emission for the picked head", bool(emits) and pv0 is not None and all(src(c.args[-1]) == pv0 for c in emits),
+              "the generated action event is the picked head's (`%s`)" % pv0, line=gl.lineno)
+    # the head that won may be kept under a second name once its event exists (`winner = candidate`): the loop over the other heads compares with that name
+    pv = pv0
+    if pv0 is not None:
+        al = [s for s in gbody if isinstance(s, ast.Assign) and isinstance(s.targets[0], ast.Name) and isinstance(s.value, ast.Name) and s.value.id == pv0]
+        if al and not any(isinstance(x, ast.Name) and x.id == pv0 for f in inner for x in ast.walk(f)):
+            pv = al[0].targets[0].id
+            # the second name is bound only after the event was created
+            anode = cfg.node_of(al[0])
+            enodes = [n for n in cfg.nodes if is_emit(n)]
+            okw = all(cfg.must_pass(f0, anode, enodes, include_a=True) for f0 in first)
+            ctx.check("C05.b.one-emission", SM, unit, "winner name bound after its event exists", okw,
+                      "`%s = %s` is reached only through the creation of the head's event" % (pv, pv0), line=al[0].lineno)
     # single-head shortcut
     single = [n for n in ast.walk(fn) if isinstance(n, ast.If) and "len(" in src(n.test) and "== 1" in src(n.test)]
     if single:
@@ -305,7 +357,7 @@ def run(ctx):
               "heads that neither co-win nor catch are failed with _abort_flow (%d site)" % len(aborts), line=il.lineno)
 
     # ---- d: winner from the most specific ties -------------------------------------------
-    sorts = [s for s in linear(gl.body) if isinstance(s, ast.Assign) and isinstance(s.value, ast.Call) and isinstance(s.value.func, ast.Name) and s.value.func.id == "sorted"]
+    sorts = [s for s in gbody if isinstance(s, ast.Assign) and isinstance(s.value, ast.Call) and isinstance(s.value.func, ast.Name) and s.value.func.id == "sorted"]
     okd, msg = False, "no `sorted(group, key=..., reverse=True)`"
     if sorts:
         c = sorts[0].value
@@ -321,14 +373,22 @@ def run(ctx):
             if isinstance(r, ast.BinOp) and isinstance(r.op, ast.Mult) and src(r.left) == "[1.0]" and isinstance(r.right, ast.BinOp) and isinstance(r.right.op, ast.Sub) \
                     and src(r.right.right) == "len(%s)" % src(key.body.left):
                 mx = src(r.right.left)
-                mdef = [a for a in linear(gl.body) if isinstance(a, ast.Assign) and isinstance(a.targets[0], ast.Name) and a.targets[0].id == mx]
+                mdef = [a for a in gbody if isinstance(a, ast.Assign) and isinstance(a.targets[0], ast.Name) and a.targets[0].id == mx]
                 keyok = bool(mdef) and re.match(r"^max\(\(?len\(", src(mdef[0].value)) is not None and "matching_scores" in src(mdef[0].value) and src(c.args[0]) in src(mdef[0].value)
         src_group = src(c.args[0]) == (gl.target.id if isinstance(gl.target, ast.Name) else "")
         okd = rev and keyok and src_group
         msg = "heads of the group are sorted in descending order by their score chain padded with 1.0 to the longest chain (reverse=%s, padded key=%s)" % (rev, keyok)
         ctx.check("C05.d.order", SM, unit, "sort", okd, msg, line=sorts[0].lineno)
         # the tie prefix
-        idx = [s for s in linear(gl.body) if isinstance(s, ast.Assign) and isinstance(s.value, ast.Call) and isinstance(s.value.func, ast.Name) and s.value.func.id == "next"]
+        idx = [s for s in gbody if isinstance(s, ast.Assign) and isinstance(s.value, ast.Call) and isinstance(s.value.func, ast.Name) and s.value.func.id == "next"]
+        # the order is re-used when the choice is repeated: every other store to the ordered list must be an order-preserving filter of itself
+        for rs in [a for a in gbody if isinstance(a, ast.Assign) and isinstance(a.targets[0], ast.Name) and a.targets[0].id == ov and a is not sorts[0]]:
+            v_ = rs.value
+            okf = isinstance(v_, ast.ListComp) and len(v_.generators) == 1 and src(v_.generators[0].iter) == ov and isinstance(v_.elt, ast.Name) \
+                and src(v_.elt) == src(v_.generators[0].target)
+            ctx.check("C05.d.order", SM, unit, "re-filter keeps the order", okf,
+                      "`%s` is only narrowed by a filter of itself (order kept)" % ov if okf else
+                      "`%s` is rebuilt by `%s`: the descending order the tie prefix relies on is not evidently kept" % (ov, first_line(v_, 60)), line=rs.lineno)
         okp, msgp = False, "picked head is not drawn from the prefix of equal best scores"
         if pick:
             pe = pick[0].value
@@ -730,6 +790,39 @@ def c_identity_by_instance(ctx):
               "events of existing action instances co-win only for the same instance" if ok else
               "two competing events are `identical` by name+arguments alone and the branch then merges the actions (`del state.actions[...]`): two flows that each `send $ref.Stop()` on DIFFERENT running actions "
               "emit one Stop, both proceed, the other action is never stopped and is deleted from state.actions (a later clean-up raises KeyError)", line=i.lineno)
+
+
+def c_instance_registered(ctx):
+    """get_event_from_element builds a helper `Action(...)` for `send Action(args).Start()` on EVERY evaluation and does not register it: the uids of two such events differ
+    although the events are the identical action.  So a difference of the action uids may only count as "another instance" when both uids belong to registered actions -
+    otherwise flows that send the identical event never co-win (one is aborted)."""
+    t = ctx.tree.ast(SM)
+    fn = find_function(t, "_resolve_action_conflicts")
+    ge = find_function(t, "get_event_from_element")
+    if ge is None:
+        raise AnalysisError("get_event_from_element not found", anchor=SM + "::get_event_from_element")
+    helper = [c for c in ast.walk(ge) if isinstance(c, ast.Call) and src(c.func) == "Action"]
+    registers = any(isinstance(x, ast.Subscript) and src(x.value) == "state.actions" and isinstance(x.ctx, ast.Store) for x in ast.walk(ge)) or \
+        any(isinstance(c, ast.Call) and src(c.func) in ("state.actions.update", "state.actions.setdefault") for c in ast.walk(ge))
+    if not helper or registers:
+        ctx.note("C05.c.instance-registered: get_event_from_element builds no unregistered helper action; the rule has no premise")
+        return
+    cmps = [c for c in ast.walk(fn) if isinstance(c, ast.Compare) and len(c.ops) == 1 and isinstance(c.ops[0], (ast.NotEq, ast.Eq))
+            and re.search(r"\.action_uid$", src(c.left)) and re.search(r"\.action_uid$", src(c.comparators[0]))]
+    ctx.floor("C05.c.instance-registered", SM, "comparisons of two action uids in conflict resolution", len(cmps), 1)
+    for c in cmps:
+        sides = {src(c.left), src(c.comparators[0])}
+        # the conjunction (or the flag definition) the comparison belongs to
+        top = c
+        while isinstance(getattr(top, "_parent", None), (ast.BoolOp, ast.UnaryOp)):
+            top = top._parent
+        member = {src(m.left) for m in ast.walk(top) if isinstance(m, ast.Compare) and len(m.ops) == 1 and isinstance(m.ops[0], ast.In) and src(m.comparators[0]) == "state.actions"}
+        conj_ok = isinstance(top, ast.BoolOp) and isinstance(top.op, ast.And)
+        ok = conj_ok and sides <= member
+        ctx.check("C05.c.instance-registered", SM, fn.name, "action uids differ", ok,
+                  "a difference of the action uids counts only when both uids are registered actions (%s)" % sorted(member) if ok else
+                  "`%s` alone decides that the two events belong to different action instances, but get_event_from_element gives every evaluation of `send Action(args).Start()` a "
+                  "fresh, unregistered uid: two flows sending the IDENTICAL event do not co-win, one of them is aborted as a loser" % first_line(c, 80), line=c.lineno)
 
 
 def c_abort_spares_winner(ctx):
